@@ -261,8 +261,11 @@ def fold_family(repo: Repo, family: str) -> dict | None:
                 r = fam.run(cls, "_write", st, v)
                 check("_write", f"out-of-range value {v} (must be refused, not truncated)", (r[0], bytes(st.written)), ("raise", b""))
             st = Stream()
-            r = fam.run(cls, "_write_array", st, list(vals))
+            given = list(vals)
+            r = fam.run(cls, "_write_array", st, given)
             check("_write_array", "values", (r, bytes(st.written)), (("ok", len(blob)), blob))
+            # dumping is read-only on the value: the caller's list is as it was (a second dump of the same object gives the same bytes)
+            check("_write_array", "the list handed in is left unchanged", [repr(x) for x in given], [repr(x) for x in vals])
             st = Stream()
             r = fam.run(cls, "_write_array", st, [])
             check("_write_array", "empty", (r, bytes(st.written)), (("ok", 0), b""))
